@@ -162,3 +162,77 @@ func TestC02_NoHalt(t *testing.T) {
 		"histories of 8-30 blocks (x3 thorough) x 0-5 signed transactions drawn from all 25 layer messages + staking/bank/gov, 30% boundary/malformed variants, block gaps 1ms..30d, absent/nil/garbage vote extensions; non-trivial = >=10 accepted transactions and >=1 of {aggregate, dispute executed, second valset checkpoint}; distinct by SHA-256 of the history JSON",
 		haltProfile(), func() Monitor { return &haltMonitor{} })
 }
+
+// genLongHalt: histories that live through the hard-coded 2000-block window of bridge-deposit rounds. Minting is
+// started through governance, several reporters report one to three deposit queries over three blocks (the same
+// reporter at different heights, several rounds opened in one block), ~2000 operation-free blocks follow
+// (Block.Idle), and the rounds expire inside a tail of ordinary generated blocks with cycle-list reports.
+func genLongHalt(rt *rapid.T) History {
+	p := haltProfile()
+	p.MinBlocks, p.MaxBlocks, p.ThoroughScale = 2, 8, 1
+	p.Prefix = func(pick func(string, int) int) []Block {
+		return []Block{
+			{Gap: GapSpec{Kind: 2}, Ops: []Op{{K: OpGov, A: 100 + pick("govActor", 5), V: 0}}},
+			{Gap: GapSpec{Kind: 2}},
+			{Gap: GapSpec{Kind: 6}}, // one hour: past both voting periods the genesis generator uses
+		}
+	}
+	h := GenHistory(rt, p, false)
+	nActors := h.Genesis.NumValidators + h.Genesis.NumUsers
+	dep := func(label string) Op {
+		return Op{K: OpSubmit, A: uni(rt, label+"Actor", nActors), R: [3]int{11 + uni(rt, label+"Query", 3), 8 * uni(rt, label+"Val", 8), 1 + 2*uni(rt, label+"Rcpt", 3) + 8*uni(rt, label+"Pool", 3)}}
+	}
+	for i := 0; i < 3; i++ {
+		b := Block{Gap: GapSpec{Kind: 2}}
+		for j, n := 0, 1+uni(rt, "depositReports", 3); j < n; j++ {
+			b.Ops = append(b.Ops, dep(fmt.Sprintf("dep%d_%d", i, j)))
+		}
+		h.Blocks = append(h.Blocks, b)
+	}
+	tail := 8 + uni(rt, "tailBlocks", 6)
+	for i := 0; i < tail; i++ {
+		b := Block{Gap: GapSpec{Kind: 2}}
+		if i == 0 {
+			b.Idle = 1990 + uni(rt, "idle", 7)
+		}
+		// the scheduled cycle-list query is reported in most tail blocks, so that its rounds aggregate next to the deposits'
+		for j, n := 0, uni(rt, "cycleReports", 3); j < n; j++ {
+			b.Ops = append(b.Ops, Op{K: OpSubmit, A: uni(rt, "cycleActor", nActors), R: [3]int{0, 1 + uni(rt, "cycleVal", 5), 1 + 2*uni(rt, "cyclePool", 4)}, S: "nodep"})
+		}
+		for j, n := 0, uni(rt, "tailOps", 3); j < n; j++ {
+			b.Ops = append(b.Ops, genOp(rt, p, nActors))
+		}
+		if uni(rt, "tailDeposit", 3) == 0 {
+			b.Ops = append(b.Ops, dep(fmt.Sprintf("tail%d", i)))
+		}
+		h.Blocks = append(h.Blocks, b)
+	}
+	return h
+}
+
+func TestC02_LongHistory(t *testing.T) {
+	pbt.Run(t, pbt.Prop[History]{Property: "C02", Name: "TestC02_LongHistory",
+		Rule: "a short generated prefix in which governance starts minting, then several reporters report 1-3 bridge-deposit queries over three blocks, ~2000 operation-free blocks, and a tail of 8-13 generated blocks (cycle-list reports, deposit reports, any other transaction) in which the 2000-block deposit rounds expire; non-trivial = >=1 deposit aggregate produced in the tail; distinct by SHA-256 of the history JSON",
+		Gen: genLongHalt,
+		Check: func(h History, info *pbt.CaseInfo, st *pbt.Stats) error {
+			mon := &haltMonitor{}
+			rs, _, v, err := RunHistory(h, mon)
+			if err != nil {
+				return err
+			}
+			mon.Classify(info)
+			info.Nontrivial = rs.Blocks > 2000 && mon.aggregates > 0
+			st.Count("blocks", int64(rs.Blocks))
+			st.Count("ops_accepted", int64(rs.OpsOK))
+			if rs.HarnessStop {
+				st.Count("harness_stops", 1)
+			}
+			for k, n := range rs.ByKindOK {
+				st.Count("ok/"+k, int64(n))
+			}
+			if v != nil {
+				return v
+			}
+			return nil
+		}})
+}
